@@ -12,7 +12,7 @@
     attributes that get_estimates sets (save flag, election id, office, unit type, model). Every assignment of such an attribute
     in get_estimates must be dominated by an assignment of `self.<H>` in the same call (the previous run's results are dropped, or
     this run's are already in place), so a call that fails midway cannot leave old results next to new settings; no other method
-    but __init__ assigns them.
+    but __init__ assigns them; the handler is published only after every model step of the run (R5.published-complete, F36).
 """
 from __future__ import annotations
 
@@ -294,6 +294,21 @@ def _same_run_rule(ctx, G):
                    else f"self.{n.attr} is assigned while self.{H} can still hold the previous run's results: if this call fails before it "
                         f"replaces them, get_national_summary_votes_estimates() writes the previous run's summary under this call's {n.attr}")
     ctx.sites("C18.R5.same-run", n_checked, 2, "client attributes shared by get_estimates and the national summary")
+    # ... and the handler is published (assigned something other than None) only when the run's model steps are behind it: a model step
+    # that raises (an unknown name on the stop list is only detected in the aggregate interval step) must not leave a half-filled handler of
+    # the failed run for a later national summary (F36)
+    for H in sorted(holders):
+        pubs = [n for n in st if n.attr == H and not (isinstance(util.enclosing_stmt(n), ast.Assign) and util.is_const(util.enclosing_stmt(n).value, None))]
+        steps = [c for c in util.own_nodes(ge, ast.Call) if isinstance(c.func, ast.Attribute) and isinstance(c.func.value, ast.Attribute)
+                 and isinstance(c.func.value.value, ast.Name) and c.func.value.value.id == "self" and c.func.value.attr == "model"]
+        ctx.sites("C18.R5.published-complete", len(steps), 3, "model steps (self.model.<step>(..)) in get_estimates")
+        for n in pubs:
+            after = cfg.reachable_from(cfg.node_of(n))
+            late = [c for c in steps if cfg.node_of(c) in after]
+            ctx.ob("C18.R5.published-complete", f"{ge.qualname}|{util.stmt_text(n, 60)}: after every model step", not late, ge.where(n),
+                   f"self.{H} receives the run's results only after all {len(steps)} model steps" if not late else
+                   f"self.{H} is published before {len(late)} model step(s) (first: {util.stmt_text(late[0], 70)}): if one of them raises, a later "
+                   f"get_national_summary_votes_estimates() summarises - and with 'results' writes - the half-finished failed run")
     # nobody else assigns them
     for fn in ctx.repo.all_functions():
         if fn.cls is None or fn is ge or fn.name == "__init__" or ns.cls not in fn.cls.mro():
